@@ -393,7 +393,9 @@ def validate_traces(sc, module, cfg, traces, batch=2000, timeout=900, deque=Fals
                 raise MachineryError("cannot locate violation in TLC output:\n" + res.out[-3000:])
             ti, off = locate(max(1, line - 1))
             val.failures.append((ti, v["name"], off))
-            rest = [x for x in b if x != ti]
+            # the batch is ONE linear behaviour: everything before the failing trace has passed
+            # every invariant, so only the traces after it need another run
+            rest = b[b.index(ti) + 1:]
             pending.insert(0, rest)
             continue
         if res.errors:
@@ -405,7 +407,7 @@ def validate_traces(sc, module, cfg, traces, batch=2000, timeout=900, deque=Fals
             hw = int(m.group(1)) if m else 0
             ti, off = locate(max(1, hw))
             val.gaps.append((ti, off, traces[ti][off] if off < len(traces[ti]) else None))
-            rest = [x for x in b if x != ti]
+            rest = b[b.index(ti) + 1:]
             pending.insert(0, rest)
             continue
     val.wall = time.time() - t0
